@@ -3,8 +3,9 @@
 // naming modes over grammar-generated and mutated addresses and checks metamorphic relations
 // (non-empty, fixed point, case independence, +extension independence) plus the M-naming model
 // for addresses built from parts.  Part two delivers one message over a real SMTP session and
-// fetches it through the real REST and web UI routes by address, by derived name and by a
-// case-flipped address.
+// fetches it through the real REST and web UI routes, the Go client and the per-mailbox WebSocket
+// monitors by address, by derived name and by a case-flipped address; some cases offer the server
+// recipients the harness' own policy object would refuse (see e2e.go, monitor.go).
 package c04
 
 import (
@@ -34,7 +35,12 @@ func init() {
 			"name = M-naming for addresses built from parts. A direct case is non-trivial when accepted in >=1 mode; distinct by (shape class, " +
 			"modes accepted, relations exercised, name edge kind). e2e: one accepted address per case (mode = index mod 3) delivered over a real " +
 			"SMTP session, then GET /api/v1/mailbox/{x} and GET /serve/mailbox/{x}/{id} for x in {address, derived name, case-flipped address}; " +
-			"distinct by (mode, shape class, lookups made).",
+			"distinct by (mode, shape class, lookups made). Every e2e case also opens the per-mailbox WebSocket monitors (v1 and v2 by address, one of them " +
+			"by name and by case-flipped address) before the deliveries: each must relay both stored messages with the delivery-time mailbox name, decided at " +
+			"the first sentinel event it relays (sentinels are emitted after the deliveries for the spellings a monitor might watch by mistake and, last, for " +
+			"the delivery-time name). Every other e2e case first offers RCPT TO a string the harness' policy object refuses (no domain, empty domain, empty " +
+			"local part, route + bare local part, unfiltered mutants, over-long local part, odd domains): refused is counted, accepted makes that string the " +
+			"address of the case with all read-side checks.",
 		Assumptions: []string{
 			"name(x) means Addressing.ExtractMailbox(x) = StoreManager.MailboxForAddress(x); the three exported entry points are also required to agree with each other",
 			"the +extension relation is applied only where the local part is an unquoted atom (no '\"' or '\\' anywhere in the address) and only when the extended address is itself accepted (length limits)",
@@ -42,6 +48,8 @@ func init() {
 			"URL path segments are escaped with url.PathEscape; any lookup key containing '/' is skipped and counted (router semantics, finding C14:name-contains-slash)",
 			"equivalence of a host name with and without trailing dot, or of different spellings of one IP address, is not demanded",
 			"POP3 USER takes the mailbox name verbatim by design; it is exercised and counted, never judged",
+			"monitors: a stored event reaches the hub through the extension host's asynchronous broker in emit order (its documented contract), the hub replays its history (30) to a new listener before later events and relays in dispatch order; so the first sentinel a monitor relays proves that every earlier event of the mailbox it watches was relayed, whenever its listener joined. Relaying a sentinel of another spelling is not judged by itself; duplicates, deletions and foreign events are not judged; a monitor that relays no sentinel at all is left to the watchdog (hang:monitor-silent)",
+			"a string the server's RCPT TO accepts (250) is an address of the property even when policy.NewRecipient called by the harness refuses it; for such a string the case-flipped spelling takes part only if the server accepts it too",
 			"failures whose derived name has a local component starting/ending with '.' or containing '..' are reported under the single key " + keyEdgePeriod,
 		},
 		MinObs: func(tier string) map[string]int64 {
@@ -52,6 +60,8 @@ func init() {
 				"plus_in_local_accepted": 150000, "edge_period_names": 10000,
 				"e2e_delivered": 10000, "e2e_get:webui-attach": 10000, "e2e_change:rest-purge": 4000, "e2e_lookup_by_address": 4000, "e2e_lookup_by_name": 4000, "e2e_lookup_by_flipped": 4000,
 				"e2e_mode:local": 1500, "e2e_mode:full": 1500, "e2e_mode:domain": 1500,
+				"e2e_ws_monitor:v1": 8000, "e2e_ws_monitor:v2": 8000, "e2e_ws_monitor_by_address": 8000, "e2e_ws_monitor_by_name": 3500,
+				"e2e_ws_monitor_by_flipped": 3500, "e2e_ws_told": 30000, "e2e_rcpt_offered": 2000,
 				"distinct_nontrivial": 1000,
 			}
 			return m
@@ -98,7 +108,7 @@ func run(c *fw.Ctx) {
 		direct(c, namers, r)
 	})
 	c.Cases("e2e", c.N(6000, 100000), func(i int, r *fw.Rand) {
-		endToEnd(c, namers[i%3], i, r)
+		endToEnd(c, namers, i, r)
 	})
 }
 
